@@ -23,6 +23,7 @@ CONSTANTS
   RejoinPausedNoAvail = FALSE
   ResetSeparate = TRUE
   JumpToFirstAvailable = FALSE
+  ReportOnlyIfBitSet = FALSE
 SPECIFICATION Spec
 VIEW View
 INVARIANTS C03_NoLostWake C04_BitsTrueWhenCalm
